@@ -44,6 +44,26 @@ POST_STATES = ("Connected", "Reconnected", "CatchingUp")
 BUFFER_STATES = ("Failed", "Disconnected", "Reconnecting")
 
 
+CURRENT: dict[str, Any] = {}
+_MISSING = object()
+
+
+def _apply_patches(patches):
+    undo = []
+    for obj, name, val in patches:
+        undo.append((obj, name, vars(obj).get(name, _MISSING)))
+        setattr(obj, name, val)
+    return undo
+
+
+def _undo_patches(undo):
+    for obj, name, old in reversed(undo):
+        if old is _MISSING:
+            delattr(obj, name)
+        else:
+            setattr(obj, name, old)
+
+
 class VLoop(asyncio.SelectorEventLoop):
     """Virtual time: `time()` is a counter that jumps to the next timer when nothing is ready."""
 
@@ -132,7 +152,7 @@ class Result:
     acked: list[int] = field(default_factory=list)       # ids answered ok, in order
     cancelled: list[int] = field(default_factory=list)   # ids whose in-flight send was cancelled
     rejected: list[int] = field(default_factory=list)    # ids refused by _post_async ("invalid state")
-    seq_ctr: int = 0                                     # dispatcher._sequence_number at the end
+    seq_ctr: int = 0                                     # highest sequence number seen on a message (counter starts at 1)
     limbo: list[int] = field(default_factory=list)       # failed, handler has not buffered them (yet / ever)
     faults: int = 0
     stuck_ids: list[int] = field(default_factory=list)   # their handler waits for a state task that cleared itself
@@ -141,15 +161,22 @@ class Result:
     orphans: int = 0                                     # buffer tasks dropped from _state_task alive (ever)
 
 
-class _LogBuf(list):
-    def __init__(self, sim):
-        super().__init__()
-        self._sim = sim
+_buf_types: dict[type, type] = {}
 
-    def clear(self):
-        self._sim.log(f"G{len(self)}")
-        self._sim.batch = [self._sim.mid(m) for m in self]
-        super().clear()
+
+def _log_buffer_type(base: type) -> type:
+    """`_message_buffer` stays whatever sequence type the runner uses (list, deque, …); only `clear` logs."""
+    if base not in _buf_types:
+        class _LogBuf(base):  # type: ignore
+            _sim = None         # set on the runner's buffer only; copies (`deque.copy()` builds `type(self)(self)`) stay silent
+
+            def clear(self):
+                if self._sim is not None:
+                    self._sim.log(f"G{len(self)}")
+                    self._sim.batch = [self._sim.mid(m) for m in self]
+                super().clear()
+        _buf_types[base] = _LogBuf
+    return _buf_types[base]
 
 
 class Sim:
@@ -236,22 +263,24 @@ class Sim:
         asyncio.set_event_loop(loop)
         sim = self
 
-        class _Rnd:
-            @staticmethod
-            def uniform(a, b):
-                return (0.5, 5.5)[sim.ch.pick("wait", 2)]
-        import openpectus.protocol.engine_dispatcher as ED
+        import random as _random
         if "d" not in _cls_cache:
             _cls_cache["d"] = _dispatcher_class()
-        dcls = _cls_cache["d"]
-        old_random, old_ws, old_httpx = ER.random, ED.WebSocketRpcClient, ED.httpx
-        ER.random = _Rnd  # reconnect wait is dictated by the schedule
-        ED.WebSocketRpcClient = dcls._fake_ws       # the websocket underneath the real connect_async / send_async
-        ED.httpx = dcls._fake_httpx                 # the HTTP POST underneath the real registration
+        orig_uniform = _random.uniform
+
+        def uniform(a, b):      # the reconnect wait is dictated by the schedule
+            return (0.5, 5.5)[sim.ch.pick("wait", 2)]
+        # replaced by identity, wherever it is reachable from engine_runner: the function on the library module
+        # (`random.uniform`, `import random as r; r.uniform`) and any global bound to it (`from random import uniform`)
+        patches = [(_random, "uniform", uniform)]
+        patches += [(ER, n, uniform) for n, v in list(vars(ER).items()) if v is orig_uniform]
+        patches += _cls_cache["d"].library_patches()
+        undo = _apply_patches(patches)
         try:
             loop.run_until_complete(self._main())
         finally:
-            ER.random, ED.WebSocketRpcClient, ED.httpx = old_random, old_ws, old_httpx
+            _undo_patches(undo)
+            CURRENT.pop("disp", None)
             try:
                 pend = [t for t in asyncio.all_tasks(loop) if not t.done()]
                 for t in pend:
@@ -270,7 +299,7 @@ class Sim:
         loop = self.loop
         builder = SimBuilder(self)
         self.disp = SimDispatcher(self, builder)
-        type(self.disp)._fake_http_client.disp = self.disp
+        CURRENT["disp"] = self.disp
         emitter = _Emitter()
         self.runner = make_runner(self, self.disp, builder, emitter, loop)
 
@@ -304,7 +333,8 @@ class Sim:
                              quiescent=self.quiescent, t_end=loop.time(), errors=self.errors,
                              seqs={k: list(v) for k, v in self.seqs.items()},
                              iterations=loop.iteration, acked=list(self.acked), cancelled=list(self.cancelled_ids),
-                             rejected=list(self.rejected_ids), seq_ctr=self.disp._sequence_number,
+                             rejected=list(self.rejected_ids),
+                             seq_ctr=max([1] + [q for l in self.seqs.values() for q in l]),
                              limbo=sorted(self.failed_open), faults=self.faults, stuck_ids=list(self.stuck_ids),
                              cancelled_after_fail=list(self.cancelled_after_fail), q_in_rd=list(self.q_in_rd),
                              orphans=len(self.orphan_tasks))
@@ -508,58 +538,61 @@ def _dispatcher_class():
         async def dispatch_message_async(self, message_json: dict):
             return await self._disp._wire_call(message_json)
 
-    class _Ws:
-        """Stands for fastapi_websocket_rpc.WebSocketRpcClient as engine_dispatcher uses it."""
+    # What the real connect / registration / send code calls underneath is replaced ON THE LIBRARY CLASSES for the
+    # duration of a run (`library_patches`), so it does not matter how engine_dispatcher imports or names them
+    # (`from x import C`, `import x as y; y.C`, …).  `CURRENT["disp"]` is the dispatcher of the running simulation.
+    def ws_init(self, *a, **kw):
+        pass
 
-        def __init__(self, uri=None, methods=None, **kw):
-            self._disp = methods.disp
-            self.other = _Other(self._disp)
+    async def ws_aenter(self):
+        disp = CURRENT["disp"]
+        fail = disp._connect_choice()
+        await asyncio.sleep(0.02)
+        if fail:
+            raise ConnectionRefusedError("sim websocket refused")
+        disp.broken = False
+        disp.sim.log("C1")
+        return self
 
-        async def __aenter__(self):
-            disp = self._disp
-            fail = disp._connect_choice()
-            await asyncio.sleep(0.02)
-            if fail:
-                raise ConnectionRefusedError("sim websocket refused")
-            disp.broken = False
-            disp.sim.log("C1")
-            return self
+    async def ws_aexit(self, *a, **kw):
+        CURRENT["disp"]._channel_closed()
 
-        async def __aexit__(self, *a):
-            self._disp._channel_closed()
+    ws_other = property(lambda self: _Other(CURRENT["disp"]))
 
     class _Response:
         def __init__(self, obj):
             self.status_code = 200
+            self.is_error = False
             self._obj = obj
 
         def json(self):
             return self._obj
 
-    class _HttpClient:
-        """Stands for httpx.AsyncClient in send_registration_msg_async."""
-        disp = None
+    def http_init(self, *a, **kw):
+        pass
 
-        def __init__(self, **kw):
-            pass
+    async def http_aenter(self):
+        return self
 
-        async def __aenter__(self):
-            return self
+    async def http_aexit(self, *a, **kw):
+        return None
 
-        async def __aexit__(self, *a):
-            return False
+    async def http_post(self, *a, **kw):
+        disp = CURRENT["disp"]
+        # a failing connect attempt fails here every other time (when a registration is needed at all)
+        if disp._connect_choice() and disp._conn_fail_no % 2 == 0:
+            raise OSError("sim registration post failed")
+        disp.registrations += 1
+        return _Response(serialize(AM.RegisterEngineReplyMsg(success=True, engine_id="E", secret_match=True,
+                                                             version_match=True)))
 
-        async def post(self, url=None, json=None, headers=None):
-            disp = _HttpClient.disp
-            # a failing connect attempt fails here every other time (when a registration is needed at all)
-            if disp._connect_choice() and disp._conn_fail_no % 2 == 0:
-                raise OSError("sim registration post failed")
-            disp.registrations += 1
-            return _Response(serialize(AM.RegisterEngineReplyMsg(success=True, engine_id="E", secret_match=True,
-                                                                 version_match=True)))
-
-    class _Httpx:
-        AsyncClient = _HttpClient
+    def library_patches():
+        import httpx
+        from fastapi_websocket_rpc.websocket_rpc_client import WebSocketRpcClient
+        return [(WebSocketRpcClient, "__init__", ws_init), (WebSocketRpcClient, "__aenter__", ws_aenter),
+                (WebSocketRpcClient, "__aexit__", ws_aexit), (WebSocketRpcClient, "other", ws_other),
+                (httpx.AsyncClient, "__init__", http_init), (httpx.AsyncClient, "__aenter__", http_aenter),
+                (httpx.AsyncClient, "__aexit__", http_aexit), (httpx.AsyncClient, "post", http_post)]
 
     class SimDispatcher(EngineDispatcher):
         """The real dispatcher (`send_async`, `assign_sequence_number`) over a simulated websocket RPC client:
@@ -710,9 +743,7 @@ def _dispatcher_class():
                     e["fut"].set_result(ok)
             self._arm()
 
-    SimDispatcher._fake_ws = _Ws
-    SimDispatcher._fake_httpx = _Httpx
-    SimDispatcher._fake_http_client = _HttpClient
+    SimDispatcher.library_patches = staticmethod(library_patches)
     return SimDispatcher
 
 
@@ -735,8 +766,8 @@ def _runner_class():
         def __init__(self, sim, dispatcher, builder, emitter, loop):
             self.__dict__["_sim"] = sim
             super().__init__(dispatcher, builder, emitter, loop)
-            buf = _LogBuf(sim)
-            buf.extend(self._message_buffer)
+            buf = _log_buffer_type(type(self._message_buffer))(self._message_buffer)
+            buf._sim = sim
             self._message_buffer = buf
 
         @property
